@@ -222,6 +222,13 @@ func c11Termination(r *sim.R, wd *world) *sim.Violation {
 	workers := 1
 	capDays := workers * 64 * 32
 	nDays := capDays + []int{-1, 0, 1, 31, 32, 33, 64}[r.T.Draw(7)]
+	lowMem := false
+	if r.T.Draw(2) == 1 {
+		nDays = 32 * (8 + r.T.Draw(8))
+		workers = 1 + r.T.Draw(2)
+		lowMem = r.T.Draw(3) != 0
+	}
+	failing := workers != 1 || nDays < capDays-1
 	base := int64(86400 * 10000)
 	w := goDB.NewDBWriter(wdb, "eth0", encoders.EncoderTypeNull)
 	empty := model.ToAggFlowMap(nil)
@@ -230,8 +237,21 @@ func c11Termination(r *sim.R, wd *world) *sim.Violation {
 			panic(simfs.HarnessError{Msg: err.Error()})
 		}
 	}
+	// every other run: a worker fails early (metadata of the second day cut off) while many work
+	// bulks remain, in either memory mode and with one or two workers - the query may fail, it must
+	// return (the remaining workers must never block on the aggregation side for good)
+	if failing {
+		day := model.DayOf(base + 86400)
+		if names := dbcheck.DayDirNames(wd.fs, tree, rel, "eth0", day); len(names) == 1 {
+			mp := dbcheck.DayPath(rel, "eth0", day, names[0]) + "/.blockmeta"
+			if b, ok := wd.fs.ReadRaw(tree, mp); ok && len(b) > 20 {
+				wd.fs.WriteRaw(tree, mp, b[:20])
+				r.Fault("stored-byte-damage:truncated-metadata-early-day-many-bulks")
+			}
+		}
+	}
 	q := &model.Query{Attrs: []string{"sip"}, Ifaces: []string{"eth0"}, First: 1, Last: 4102444800}
-	r.Event("termination: %d day directories, %d worker(s)", nDays, workers)
+	r.Event("termination: %d day directories, %d worker(s), lowmem=%v, failing worker=%v", nDays, workers, lowMem, failing)
 	r.Nontriv = true
 	r.Probe("termination_run")
 	var err error
@@ -239,7 +259,7 @@ func c11Termination(r *sim.R, wd *world) *sim.Violation {
 	defer restore()
 	ctx, cancel := context.WithCancel(context.Background())
 	defer cancel()
-	stall, sc := wd.scheduled(r, func() { _, err = runQuery(ctx, q, false) }, 5000000)
+	stall, sc := wd.scheduled(r, func() { _, err = runQuery(ctx, q, lowMem) }, 5000000)
 	if stall != "" {
 		cancel()
 		over := "at most the queue capacity"
@@ -249,7 +269,7 @@ func c11Termination(r *sim.R, wd *world) *sim.Violation {
 		return r.Report(&sim.Violation{Clause: "does-not-terminate", Signature: over,
 			Detail: fmt.Sprintf("query over %d day directories with %d worker(s) (queue capacity %d directories): %s after %d scheduling steps\n%s", nDays, workers, capDays, stall, sc.Steps, strings.TrimSpace(blockedSummary()))})
 	}
-	if err != nil {
+	if err != nil && !failing {
 		return r.Report(&sim.Violation{Clause: "query-fails", Signature: "many day directories", Detail: err.Error()})
 	}
 	return nil
